@@ -703,7 +703,8 @@ class Daemon(object):
             raise ValueError("object or objectid argument expected")
         if not isinstance(objectOrId, str):
             objectId = getattr(objectOrId, "_pyroId", None)
-            if objectId is None:
+            if objectId is None or _unpack_weakref(self.objectsById.get(objectId)) is not objectOrId:
+                # (the id attribute may be stale, or inherited from a registered class: never remove what the id designates now)
                 raise errors.DaemonError("object isn't registered")
         else:
             objectId = objectOrId
@@ -729,8 +730,11 @@ class Daemon(object):
         return an URI for the internal address.
         """
         if not isinstance(objectOrId, str):
-            objectOrId = getattr(objectOrId, "_pyroId", None)
-            if objectOrId is None or objectOrId not in self.objectsById:
+            obj = objectOrId
+            objectOrId = getattr(obj, "_pyroId", None)
+            registered = _unpack_weakref(self.objectsById.get(objectOrId))
+            if objectOrId is None or (registered is not obj and not (inspect.isclass(registered) and isinstance(obj, registered))):
+                # (the id attribute may be stale: the id must designate this object, or the class it is an instance of)
                 raise errors.DaemonError("object isn't registered in this daemon")
         if nat:
             loc = self.natLocationStr or self.locationStr
